@@ -21,6 +21,7 @@
 From Coq Require Import ZArith List Bool Reals Lra. Import ListNotations.
 From PV Require Import Num NumR model.Geom proofs.LatticeFacts proofs.SiteFacts proofs.OverlapFacts proofs.ConvexFacts proofs.ShapeFacts proofs.EnclosedFacts proofs.PackingFacts proofs.PolygonFacts proofs.RadiusFacts proofs.PolygonPacking proofs.NoNesting.
 From PV Require Import gen.GenFns proofs.SourceFacts.
+From PV Require Import proofs.SourceCorollaries.
 
 Theorem C01_scored_disc_packing_has_no_overlap :
   forall (st : pstateR) (l : list discR), wf_state st -> rigid_inputs st -> p_shape NumR st =
@@ -275,4 +276,15 @@ Theorem C01_mol_radius_is_source :
     (fun (acc : carrier NN) (p : disc NN) => nmax acc (gen_mol_radius_term NN p)) l fmin_.
 Proof. exact mol_radius_is_source. Qed.
 Print Assumptions C01_mol_radius_is_source.
+
+
+Theorem C01_source_shell_count_suffices :
+  forall (st : pstateR) (fxi fyi fxj fyj : R) (n m : Z), wf_state st -> (-1 / 2 <= fxi < 1 /
+    2)%R -> (-1 / 2 <= fyi < 1 / 2)%R -> (-1 / 2 <= fxj < 1 / 2)%R -> (-1 / 2 <= fyj < 1 / 2)%R
+    -> (gen_shells NumR st < Z.abs n)%Z \/ (gen_shells NumR st < Z.abs m)%Z -> forall x1 y1 x2
+    y2 : R, to_cartesian NumR (p_cell NumR st) (fxi, fyi) = (x1, y1) -> to_cartesian NumR
+    (p_cell NumR st) ((fxj + IZR n)%R, (fyj + IZR m)%R) = (x2, y2) -> (gen_radius_sq NumR st <
+    (x1 - x2) * (x1 - x2) + (y1 - y2) * (y1 - y2))%R.
+Proof. exact source_shell_count_suffices. Qed.
+Print Assumptions C01_source_shell_count_suffices.
 
